@@ -1,6 +1,6 @@
 """Fail-closed translator for the graph-building functions of reservoirpy/ops.py -> Gallina (tie T of C03, second unit).
 
-Targets (FUNCS, in emission order): concat_multi_inputs, _link_1to1.   (link / merge / Model.__init__: tie H only.)
+Targets (FUNCS, in emission order): concat_multi_inputs, _link_1to1, merge.   (link / Model.__init__ / update_graph: tie H only.)
 It REUSES tools/vlib/py2coq_graph.py (kinds, ownership tracking, defaultdict reads with their insert side effect, loops,
 set -> sequence sites) by subclassing its `Fn` / `Translator`; py2coq_graph.py is not modified.  The callee
 `find_parents_and_children` is NOT re-translated here: ops.py must import it from .utils.graphflow (checked), its signature
@@ -32,31 +32,46 @@ For _link_1to1 (an operand -- Node or Model -- is a `node`: the identity of the 
   `l += <list expr>`                            on a list this function owns: `l ++ <expr>` (in-place extend copies the elements)
   `list(product(a, b))`                         `list_prod a b` (product imported from itertools, pinned)
   `for .. in l: if c: raise E(...)`             `py_for l (fun _ x => if c then Exc E else Val tt) tt` (the message is not modelled)
-"""
+For merge (vocabulary coq/base/PyColl4.v; the signature text `%s` is pinned):
+  `*models`                                     `models : list operand`; an operand is an object or a list / tuple of objects
+  `if isinstance(x, (list, tuple)): l.extend(x)` / `else: l.append(x)`   ONE unit, x an operand, l an owned list: `l ++ opnd_flat x`
+  `isinstance(x, _Node)`                        `is_node x` (Section variable; _Node imported from ._base, pinned)
+  `raise TypeError(...)`                        the function is then emitted over `py4` (Val4 / Exc4 TypeError / Exc4 (Py e), py4_bind,
+                                                py4_for) instead of `py`; also as the LAST branch of an if inside a loop
+  `<str constant>`                              `tt` of kind str, which no other construct accepts (messages are not modelled)
+  `return x.update_graph(s, t)`                 `MUpdate x s t` (x an object, s / t sets of nodes / edges): the call is NOT translated
+  `return Model(nodes=<list>, edges=<list>, name=name)`   `MNew <list> <list>`: the constructor is NOT translated; `name` must be the
+                                                parameter of that name, which may occur nowhere else
+""" % "model: _Node, *models: _Node, inplace: bool=False, name: str=None"
 import ast
 import hashlib
 import os
+import re
 
 from vlib import py2coq_graph as g
 from vlib.py2coq_graph import Reject, NODE, EDGE, NAT, BOOL, DD, L, C, SET, T, where
 
-VERSION = "py2coq_ops 1"
+VERSION = "py2coq_ops 2"
 SOURCE = "reservoirpy/ops.py"
 DEAD = ("deaddict",)
 DIM = ("dim",)
+OPND, NAME, STR, MRES = ("operand",), ("pyname",), ("str",), ("mres",)
+MERGE_SIG = "model: _Node, *models: _Node, inplace: bool=False, name: str=None"
 FUNCS = [
     ("concat_multi_inputs", [("nodes", C(NODE)), ("edges", C(EDGE))]),
     ("_link_1to1", [("node1", NODE), ("node2", NODE)]),
+    ("merge", [("model", NODE), ("models", L(OPND)), ("inplace", BOOL), ("name", NAME)]),
 ]
 IMPORTED = {"find_parents_and_children": ".utils.graphflow", "Concat": ".nodes.concat", "Model": ".model", "FrozenModel": ".model",
-            "product": "itertools"}
+            "product": "itertools", "_Node": "._base"}
 ATTRS = {"nodes": ("attr_nodes", L(NODE)), "edges": ("attr_edges", L(EDGE)), "input_nodes": ("attr_input_nodes", L(NODE)),
          "output_nodes": ("attr_output_nodes", L(NODE)), "is_initialized": ("is_initialized", BOOL),
          "output_dim": ("output_dim", DIM), "input_dim": ("input_dim", DIM)}
-CLASSES = {"Model": "is_model", "FrozenModel": "is_frozen_model"}
+CLASSES = {"Model": "is_model", "FrozenModel": "is_frozen_model", "_Node": "is_node"}
 PINNED_ASSIGN = {"_MULTI_INPUTS_OPS": "(Concat,)"}
 RESERVED2 = g.RESERVED | set("""new_concat isc GenGraphflow tt unit is_model is_frozen_model attr_nodes attr_edges attr_input_nodes
-attr_output_nodes is_initialized output_dim input_dim dim dim_eqb list_prod""".split())
+attr_output_nodes is_initialized output_dim input_dim dim dim_eqb list_prod is_node operand opnd_flat ONode OSeq mres MNew MUpdate
+py4 Val4 Exc4 py4_bind py4_for TypeError Py pyexc4""".split())
 
 
 def coqtype(k):
@@ -64,6 +79,12 @@ def coqtype(k):
         return "unit"
     if k == DIM:
         return "dim"
+    if k == OPND:
+        return "operand"
+    if k == NAME:
+        return "unit"
+    if k == L(OPND):
+        return "list operand"
     return g.coqtype(k)
 
 
@@ -75,6 +96,8 @@ class OFn(g.Fn):
 
     # ------------------------------------------------------------------ expressions
     def expr(self, e, env):
+        if isinstance(e, ast.Constant) and isinstance(e.value, str):
+            return [], "tt", STR, False
         if isinstance(e, ast.Set):
             parts = [self.expr(x, env) for x in e.elts]
             if not parts or any(p[0] for p in parts):
@@ -103,6 +126,8 @@ class OFn(g.Fn):
             pa, a, ka, _ = self.expr(e.args[0], env)
             if pa or ka != NODE:
                 raise Reject("%s: isinstance of a value of kind %r" % (where(e), ka))
+            if e.args[1].id == "_Node" and not self.py4:
+                raise Reject("%s: isinstance(.., _Node) is understood only in merge" % where(e))
             return [], "(%s %s)" % (CLASSES[e.args[1].id], a), BOOL, False
         if isinstance(e, ast.Call) and isinstance(e.func, ast.Name) and e.func.id == "list" and "list" not in env \
                 and len(e.args) == 1 and not e.keywords and isinstance(e.args[0], ast.Call) \
@@ -193,6 +218,66 @@ class OFn(g.Fn):
             if isinstance(s, ast.Assign) and len(s.targets) == 1 and isinstance(s.targets[0], ast.Name) \
                     and isinstance(s.value, ast.Dict):
                 self.dead_ok(s.targets[0].id, s)
+            # raise TypeError(...) / raise E(...) in a function emitted over py4 (the message is not modelled)
+            if isinstance(s, ast.Raise) and self.py4:
+                ex = s.exc
+                nm = ex.func.id if isinstance(ex, ast.Call) and isinstance(ex.func, ast.Name) else None
+                if rest or nm not in (g.EXCS | {"TypeError"}) or s.cause is not None or nm in env or not mon:
+                    raise Reject("%s: raise of %r" % (where(s), nm))
+                return "Exc %s" % nm
+            # if isinstance(x, (list, tuple)): l.extend(x) / else: l.append(x)      (x an operand of `*models`)
+            if isinstance(s, ast.If) and isinstance(s.test, ast.Call) and isinstance(s.test.func, ast.Name) \
+                    and s.test.func.id == "isinstance" and len(s.test.args) == 2 and isinstance(s.test.args[1], ast.Tuple):
+                t = s.test
+                x = t.args[0]
+                if t.keywords or "isinstance" in env or "list" in env or "tuple" in env or ast.unparse(t.args[1]) != "(list, tuple)" \
+                        or not isinstance(x, ast.Name) or env.get(x.id) != OPND:
+                    raise Reject("%s: isinstance against a tuple is understood only as isinstance(<operand>, (list, tuple))" % where(s))
+                def meth(b, name):
+                    if len(b) == 1 and isinstance(b[0], ast.Expr) and isinstance(b[0].value, ast.Call):
+                        c = b[0].value
+                        if isinstance(c.func, ast.Attribute) and c.func.attr == name and isinstance(c.func.value, ast.Name) \
+                                and not c.keywords and len(c.args) == 1 and isinstance(c.args[0], ast.Name) and c.args[0].id == x.id:
+                            return c.func.value.id
+                    return None
+                l1, l2 = meth(s.body, "extend"), meth(s.orelse, "append")
+                if l1 is None or l1 != l2:
+                    raise Reject("%s: expected `l.extend(x)` / `else: l.append(x)`" % where(s))
+                env, owned = dict(env), set(owned)
+                kl = env.get(l1)
+                if kl not in (L(None), L(NODE)):
+                    raise Reject("%s: flattening into %r of kind %r" % (where(s), l1, kl))
+                self.need_owned(l1, owned, s, ".extend / .append")
+                env[l1] = L(NODE)
+                return "let %s := (%s ++ opnd_flat %s) in\n%s" % (l1, l1, x.id, self.block(rest, env, owned, mon, tail))
+            # return x.update_graph(s, t)   /   return Model(nodes=.., edges=.., name=name)
+            if isinstance(s, ast.Return) and isinstance(s.value, ast.Call) and self.py4 and (
+                    (isinstance(s.value.func, ast.Attribute) and s.value.func.attr == "update_graph")
+                    or (isinstance(s.value.func, ast.Name) and s.value.func.id == "Model")):
+                c = s.value
+                if rest or not mon or (tail is not None and getattr(tail, "in_loop", False)) or "Model" in env:
+                    raise Reject("%s: return shape" % where(s))
+                if isinstance(c.func, ast.Attribute):
+                    if c.keywords or len(c.args) != 2 or not isinstance(c.func.value, ast.Name):
+                        raise Reject("%s: update_graph call shape" % where(s))
+                    parts = [self.expr(c.func.value, env)] + [self.expr(a, env) for a in c.args]
+                    if any(p[0] for p in parts) or [p[2] for p in parts] != [NODE, SET(NODE), SET(EDGE)]:
+                        raise Reject("%s: update_graph on kinds %r" % (where(s), [p[2] for p in parts]))
+                    t = "(MUpdate %s %s %s)" % tuple(p[1] for p in parts)
+                else:
+                    if c.args or [k.arg for k in c.keywords] != ["nodes", "edges", "name"]:
+                        raise Reject("%s: Model(...) is understood only as Model(nodes=.., edges=.., name=name)" % where(s))
+                    nv = c.keywords[2].value
+                    if not isinstance(nv, ast.Name) or nv.id != "name" or env.get("name") != NAME:
+                        raise Reject("%s: Model(..., name=<not the parameter name>)" % where(s))
+                    parts = [self.expr(c.keywords[0].value, env), self.expr(c.keywords[1].value, env)]
+                    if any(p[0] for p in parts) or [p[2] for p in parts] != [L(NODE), L(EDGE)]:
+                        raise Reject("%s: Model(nodes=, edges=) of kinds %r" % (where(s), [p[2] for p in parts]))
+                    t = "(MNew %s %s)" % tuple(p[1] for p in parts)
+                if getattr(self, "ret", None) not in (None, MRES):
+                    raise Reject("%s: return kinds differ: %r / %r" % (where(s), self.ret, MRES))
+                self.ret, self.ret_fresh = MRES, [True]
+                return self.wrap(mon, t)
             # s |= <set expr>
             if isinstance(s, ast.AugAssign) and isinstance(s.op, ast.BitOr) and isinstance(s.target, ast.Name):
                 env, owned = dict(env), set(owned)
@@ -251,6 +336,34 @@ class OFn(g.Fn):
                     raise Reject("%s: registry value" % where(s))
                 return self.pre_lets(pi) + self.block(rest, dict(env), set(owned), mon, tail)
         return super().block(stmts, env, owned, mon, tail)
+
+    def if_stmt(self, s, rest, env, owned, mon, tail):
+        # inside a loop of a py4 function: `if c: <updates> else: raise E(...)` (the last branch of an if / elif chain)
+        if self.py4 and mon and tail is not None and getattr(tail, "in_loop", False) and len(s.orelse) == 1 \
+                and isinstance(s.orelse[0], ast.Raise) and s.body and not any(isinstance(n, (ast.Raise, ast.Return)) for b in s.body for n in ast.walk(b)):
+            pre, c, kc, _ = self.expr(s.test, env)
+            if kc != BOOL:
+                raise Reject("%s: condition of kind %r" % (where(s), kc))
+            vs = [v for v in self.assigned(s.body) if v in env]
+            if not vs:
+                raise Reject("%s: if statement without effect" % where(s))
+            a = self.block(s.body, dict(env), set(owned), True, self.branch_tail(vs, True, env, owned, s, tail))
+            b = self.block(s.orelse, dict(env), set(owned), True, None)
+            return self.pre_lets(pre) + "py_bind (if %s then\n%s\nelse\n%s) (fun %s =>\n%s)" % (
+                c, a, b, self.lam(vs), self.block(rest, env, owned, mon, tail))
+        # an if both of whose branches leave the function, a branch possibly ending in such an if itself
+        def leaves(blk):
+            return bool(blk) and (isinstance(blk[-1], (ast.Return, ast.Raise)) or (
+                isinstance(blk[-1], ast.If) and leaves(blk[-1].body) and leaves(blk[-1].orelse)))
+        if self.py4 and mon and leaves(s.body) and leaves(s.orelse) and not isinstance(s.body[-1], (ast.Return, ast.Raise)):
+            if rest or (tail is not None and getattr(tail, "in_loop", False)):
+                raise Reject("%s: code after an if whose branches both leave the function / inside a loop" % where(s))
+            pre, c, kc, _ = self.expr(s.test, env)
+            if kc != BOOL:
+                raise Reject("%s: condition of kind %r" % (where(s), kc))
+            return self.pre_lets(pre) + "if %s then\n%s\nelse\n%s" % (
+                c, self.block(s.body, dict(env), set(owned), mon, None), self.block(s.orelse, dict(env), set(owned), mon, None))
+        return super().if_stmt(s, rest, env, owned, mon, tail)
 
     def for_stmt(self, s, rest, env, owned, mon, tail):
         # for .. in l: if c: raise E(...)
@@ -380,9 +493,12 @@ class OTranslator(g.Translator):
             raise Reject("function %s: %d definitions found" % (name, len(fns)))
         fd = fns[0]
         a = fd.args
-        if a.vararg or a.kwarg or a.kwonlyargs or a.posonlyargs or fd.decorator_list or a.defaults:
+        if name == "merge":
+            if fd.decorator_list or ast.unparse(a) != MERGE_SIG:
+                raise Reject("function merge: signature is `%s`, expected `%s`" % (ast.unparse(a), MERGE_SIG))
+        elif a.vararg or a.kwarg or a.kwonlyargs or a.posonlyargs or fd.decorator_list or a.defaults:
             raise Reject("function %s: signature shape" % name)
-        if [x.arg for x in a.args] != [p for p, _ in params]:
+        elif [x.arg for x in a.args] != [p for p, _ in params]:
             raise Reject("function %s: parameters are %r, expected %r" % (name, [x.arg for x in a.args], [p for p, _ in params]))
         seg = ast.get_source_segment(self.src, fd)
         stored = {n.id for n in ast.walk(fd) if isinstance(n, ast.Name) and isinstance(n.ctx, ast.Store)} | {p for p, _ in params}
@@ -396,12 +512,30 @@ class OTranslator(g.Translator):
                     n.id = bad + "_"
         f = OFn(self, name, params)
         f.params, f.ret, f.fdef, f.loopvar = params, None, fd, []
+        f.py4 = any(isinstance(n, ast.Raise) and isinstance(n.exc, ast.Call) and isinstance(n.exc.func, ast.Name)
+                    and n.exc.func.id == "TypeError" for n in ast.walk(fd))
+        if f.py4 and name != "merge":
+            raise Reject("function %s: raise TypeError is understood only in merge" % name)
+        if name == "merge":
+            uses = [n for n in ast.walk(fd) if isinstance(n, ast.Name) and n.id == "name"]
+            if len(uses) != 1:
+                raise Reject("function merge: the parameter `name` must occur exactly once (Model(..., name=name))")
         env = {p: k for p, k in params}
         mon = f.raises(fd.body)
         f.monadic = mon
         body = f.block(fd.body, env, set(), mon, None)
         if f.ret is None:
             raise Reject("function %s: no return" % name)
+        if f.py4:
+            if f.uses_fuel or not mon:
+                raise Reject("function %s: py4 shape" % name)
+            body = re.sub(r"\bpy_bind\b", "py4_bind", body)
+            body = re.sub(r"\bpy_for\b", "py4_for", body)
+            body = re.sub(r"\bVal\b", "Val4", body)
+            body = re.sub(r"\bExc TypeError\b", "Exc4 TypeError", body)
+            body = re.sub(r"\bExc (%s)\b" % "|".join(sorted(g.EXCS)), r"Exc4 (Py \1)", body)
+            if re.search(r"\b(Exc|OutOfFuel|py_while)\b", body):
+                raise Reject("function %s: a construct of `py` is left in a py4 function" % name)
         sig = " ".join("(%s : %s)" % (p, coqtype(k)) for p, k in params)
         if f.uses_fuel:
             sig = "(fuel : nat) " + sig
@@ -443,9 +577,11 @@ def emit(repo):
            "   sites); sorted_by_name : `sorted(edges, key=%s)`; isc x : `type(x) in _MULTI_INPUTS_OPS` (= (Concat,));" % g.PINNED_KEY,
            "   new_concat k x : the object created by `Concat()` at allocation site k (%d sites) in the loop iteration for node x;" % tr.sites_c,
            "   is_model / is_frozen_model x : isinstance(x, Model / FrozenModel); attr_* x, is_initialized x, output_dim / input_dim x :",
-           "   the attribute reads x.nodes, x.edges, x.input_nodes, x.output_nodes, ...; dim_eqb : `==` on dimensions. *)",
+           "   the attribute reads x.nodes, x.edges, x.input_nodes, x.output_nodes, ...; dim_eqb : `==` on dimensions;",
+           "   is_node x : isinstance(x, _Node); merge: vocabulary base/PyColl4.v (py4, operand, MNew = `Model(nodes=, edges=, name=)`,",
+           "   MUpdate = `.update_graph(,)`, neither call translated). *)",
            "From Coq Require Import List Bool Arith.",
-           "From RV Require Import base.PyColl gen.Gen_graphflow.",
+           "From RV Require Import base.PyColl base.PyColl4 gen.Gen_graphflow.",
            "Import ListNotations.", "",
            "Module GenOps.",
            "Section Gen.",
@@ -454,7 +590,7 @@ def emit(repo):
            "Variable sorted_by_name : list edge -> list edge.",
            "Variable isc : node -> bool.",
            "Variable new_concat : nat -> node -> node.",
-           "Variables is_model is_frozen_model is_initialized : node -> bool.",
+           "Variables is_model is_frozen_model is_initialized is_node : node -> bool.",
            "Variables attr_nodes attr_input_nodes attr_output_nodes : node -> list node.",
            "Variable attr_edges : node -> list edge.",
            "Variable dim : Type.",
